@@ -26,7 +26,8 @@ ID = 'C34'
 LEVEL = 'exploration'
 RULE = ('hypothesis: configuration = 1..5 rules (entities subset of P/D/SD/T, permissions subset of view/edit/create/delete, '
         '0..2 required groups, 0..2 roles, 0..2 labels, excluded entities, excluded attributes incl. relationship attributes; '
-        'several perm() argument styles) x 1..3 users (PlainUser / OtherUser / None / a P instance; group getters returning '
+        'six perm() argument styles incl. both spellings of a keyword (group= with groups=, role= with roles=, label= with '
+        'labels=) in one call) x 1..3 users (PlainUser / OtherUser / None / a P instance; group getters returning '
         'list, single string or None) x (user, object) role tables and object label tables (a general getter and a '
         'class-restricted getter each) x 1..7 linked objects. One evaluation = one (configuration, user, permission, target) '
         'has_perm decision (target = entity, attribute or object), asked 3 times (canonical order; re-ordered in the same '
@@ -202,11 +203,27 @@ def build(cfg):
                 args = [','.join(r['perms'])]
                 for k, v in (('groups', r['groups']), ('roles', r['roles']), ('labels', r['labels'])):
                     kw[k] = ', '.join(v) if v else None
-            else:
+            elif style == 3:
                 args = [list(r['perms'])]
                 for k, v in (('group', r['groups']), ('role', r['roles']), ('label', r['labels'])):
                     if v:
                         kw[k] = tuple(v)
+            else:
+                # both spellings of a keyword in one call (group= and groups=, role= and roles=, label= and labels=):
+                # the requirement is the union of the names given under either spelling
+                args = list(r['perms'])
+                for k, v in (('group', r['groups']), ('role', r['roles']), ('label', r['labels'])):
+                    v = list(v)
+                    if style == 4:
+                        one, many = v[:1], v[1:]               # first name under the singular keyword, the rest plural
+                    else:
+                        one, many = v[1:], v[:1]               # the other way round
+                    if one:
+                        kw[k] = one[0] if len(one) == 1 else list(one)
+                    if many:
+                        kw[k + 's'] = ' '.join(many) if style == 4 else list(many)
+                    elif style == 5 and not v:
+                        kw[k + 's'] = []
             rule = perm(*args, **kw)
             env.rule_objs.append(rule)
             xs = [env.entities[e] for e in r['excl_entities']] + [env.attrs[a] for a in r['excl_attrs']]
@@ -598,7 +615,7 @@ def configs():
             'labels': draw(st.one_of(st.just([]), subset(M.LABELS, 0, 2))),
             'excl_entities': draw(st.one_of(st.just([]), subset(M.ENTITIES, 0, 2), subset(own, 0, 2))),
             'excl_attrs': draw(st.one_of(*xa)),
-            'style': draw(st.integers(0, 3)),
+            'style': draw(st.integers(0, 5)),
         }
     rule = rule_st()
     user = st.fixed_dictionaries({
